@@ -16,7 +16,7 @@ RULE = (
     "or small Custom scaling, deriv_check in {CheckFirst, CheckSecond, CheckAll}; variants: uncorrupted (must pass and leave the "
     "trajectory byte-identical to the run without the check), sub-tolerance corruption (must pass), and one corrupted entry of the "
     "gradient, the Jacobian or the Hessian at a seeded (row, column) with magnitude {1.5, 3, 10, 1e3} x (deriv_tol + 1e-5|entry|) + 1e-5 "
-    "(must raise DerivError naming exactly that row and column, from the right check); a variant is non-trivial when a corruption was "
+    "or with the (non-zero) entry left out of the sparse result altogether (must raise DerivError naming exactly that row and column, from the right check); a variant is non-trivial when a corruption was "
     "injected; distinct = distinct (world, component, row, column, magnitude)"
 )
 ASSUMPTIONS = [
@@ -24,7 +24,7 @@ ASSUMPTIONS = [
     "Hessian corruption is applied to a single (row, col) entry (not mirrored), so exactly one column of the check is affected",
 ]
 TIERS = {"quick": {"worlds": 700, "wall": 150, "limit": 60.0}, "thorough": {"worlds": 15000, "wall": 1700, "limit": 120.0}}
-GATES = ("nontrivial", "corrupt.grad", "corrupt.jac", "corrupt.hess", "detected", "passed.uncorrupted", "passed.subtolerance", "passed.other_check")
+GATES = ("nontrivial", "corrupt.dropped_entry", "corrupt.grad", "corrupt.jac", "corrupt.hess", "detected", "passed.uncorrupted", "passed.subtolerance", "passed.other_check")
 
 
 def generate(rng, seed, index, tier):
@@ -44,7 +44,7 @@ def generate(rng, seed, index, tier):
             comp = "grad"
         row = 0 if comp == "grad" else int(rng.integers(0, spec["m"] if comp == "jac" else spec["n"]))
         col = int(rng.integers(0, spec["n"]))
-        plans.append({"comp": comp, "row": row, "col": col, "mult": float(rng.choice([1.5, 3.0, 10.0, 1e3])), "sign": int(rng.choice([-1, 1])), "sub": bool(rng.random() < 0.2)})
+        plans.append({"comp": comp, "row": row, "col": col, "mult": float(rng.choice([1.5, 3.0, 10.0, 1e3])), "sign": int(rng.choice([-1, 1])), "sub": bool(rng.random() < 0.2), "drop": bool(rng.random() < 0.25)})
     return gen.base_world(seed, ID, index, spec, x0, y0, kw, case={"plans": plans})
 
 
@@ -96,17 +96,29 @@ def case(world):
         if col >= rt.um.n or (comp == "jac" and row >= rt.um.m) or (comp == "hess" and row >= rt.um.n):
             continue
         e_s, shift = _internal_entry_and_shift(rt, comp, row, col, xi, yi)
-        if pl["sub"]:
+        drop = bool(pl.get("drop")) and not pl["sub"]
+        checked = (first and comp in ("grad", "jac")) or (second and comp == "hess")
+        if drop and not checked:
+            # leaving out a non-constant first-derivative entry also changes the function the
+            # Hessian check differentiates, so "not covered by this check" has no fixed expectation
+            continue
+        if drop:
+            # the (true, non-zero) entry is left out of the derivative altogether; only meaningful when it
+            # is well above the checker's tolerance
+            if not abs(e_s) >= 10.0 * (tol + 1e-5 * abs(e_s)) + 1e-4:
+                continue
+            d_s = -float(e_s)
+            bump("corrupt.dropped_entry")
+        elif pl["sub"]:
             d_s = pl["sign"] * 0.1 * tol
         else:
             d_s = pl["sign"] * (pl["mult"] * (tol + 1e-5 * (abs(e_s) + abs(pl["mult"] * tol))) + 1e-5)
         delta = float(np.ldexp(d_s, -int(shift)))
         w = copy.deepcopy(world)
-        w["faults"] = [{"dev": "eval", "comp": comp, "corrupt": {"row": row, "col": col, "delta": delta}}]
+        w["faults"] = [{"dev": "eval", "comp": comp, "corrupt": {"row": row, "col": col, "delta": delta, "drop": drop}}]
         F = execute(w)
         execs += 1
         ctx = {"mode": mode, "comp": comp, "row": row, "col": col, "mult": pl["mult"], "sub_tolerance": pl["sub"]}
-        checked = (first and comp in ("grad", "jac")) or (second and comp == "hess")
         if pl["sub"] or not checked:
             if F.outcome == "DerivError":
                 viol.append(V(ID, "false-positive", "%s entry (%d,%d) off by %r (%s) was rejected" % (comp, row, col, d_s, "below tolerance" if pl["sub"] else "not covered by " + mode), sub, ctx))
